@@ -182,6 +182,20 @@ DoGetTab(s0, ev) ==
                     \cup F(\A i \in (nonnull \cap A) \ s0.appHeld : T[i + 1].o \in expectOrigin(i), "C11", "decoded-symbol-buffer-origin")
                     \cup Common(ev) ]
 
+(* ---- control parameters -------------------------------------------------- *)
+
+(* OF_CTRL_GET_MAX_K (1) / OF_CTRL_GET_MAX_N (2): the advertised limits.  For the Reed-Solomon codecs they *)
+(* are the field limits; the GF(2^m) codec knows them once m is set; nothing beyond the 32-bit value is    *)
+(* written.  Type 1024 on LDPC is the null-last-symbol claim, validated by PchkTrace (C15).                *)
+DoCtrl(s0, ev) ==
+    LET want == IF s0.codec = 1 THEN 255
+                ELSE IF s0.codec = 2 /\ s0.m \in {4, 8} THEN 2 ^ s0.m - 1
+                ELSE -1
+    IN  [ s |-> s0,
+          fails |-> F(ev.over = 0, "C07", "get-control-parameter-wrote-beyond-its-value")
+                    \cup F((ev.type \in {1, 2} /\ want > 0 /\ s0.phase = "configured") => (ev.st = OK /\ ev.val = want),
+                           "C09", "advertised-limit-differs-from-field-limit") ]
+
 (* ---- release ------------------------------------------------------------ *)
 
 DoRelease(s0, ev) ==
@@ -302,6 +316,7 @@ Step ==
                       [] ev.e = "GetTab"    -> Apply(ev, DoGetTab(s0, ev), sid)
                       [] ev.e = "Release"   -> Apply(ev, DoRelease(s0, ev), sid)
                       [] ev.e = "Build"     -> Apply(ev, DoBuild(s0, ev), sid)
+                      [] ev.e = "Ctrl"      -> Apply(ev, DoCtrl(s0, ev), sid)
                       [] ev.e = "Expect"    -> Apply(ev, [ s |-> s0, fails |->
                                                    F(Avail(s0) = ToSet(ev.avail) /\ (Complete(s0) <=> ev.complete = 1),
                                                      "INFRA", "model-behaviour-disagrees-with-api-spec") ], sid)
